@@ -16,7 +16,7 @@ CLAIMS = {
     "C11": dict(
         level="proof",
         design="DESIGN.md §5 C11, appendix B.1",
-        text="Lean theorems, unbounded: for every sorted functional move graph the model of spanning_forest/tree_moves/root_moves emits a sequence implementing the simultaneous assignment and changing nothing else (C11_parallelMoves_correct), terminates (fuel lemma), writes each target once; the concrete x86-64 / AArch64 / RV64 instruction sequences (incl. the TEMP / SPILL_TEMP scratch discipline, containsSpillEdge completeness) realise it on machine states (C11_x86_correct, C11_aarch64_correct, C11_rv64_correct); whole substitutions emit erase for 0 copies, share k-1 for k copies, nothing for ext, all before the moves (C11_refcount_ops, C11_substitution_*), and on an abstract count store these operations change each object's count by (new references - old references), erase a dropped object variable exactly once and leave every other count alone (C11_counts, C11_counts_balance, C11_new_variable_holds, C11_counts_untouched, C11_erase_once, C11_no_erase_of_kept, C11_share_ops). Tied to the code by exact equality of the emitted instruction sequences on an exhaustive enumeration of small move graphs at every offset across the register/spill boundary for all three real backends and the mock backend, plus random larger graphs and exhaustive small substitutions; an independent simulator checks the implementation's own sequences.",
+        text="Lean theorems, unbounded: for every sorted functional move graph the model of spanning_forest/tree_moves/root_moves emits a sequence implementing the simultaneous assignment and changing nothing else (C11_parallelMoves_correct), terminates (fuel lemma), writes each target once; the concrete x86-64 / AArch64 / RV64 instruction sequences (incl. the TEMP / SPILL_TEMP scratch discipline, containsSpillEdge completeness) realise it on machine states (C11_x86_correct, C11_aarch64_correct, C11_rv64_correct); whole substitutions emit erase for 0 copies, share k-1 for k copies, nothing for ext, all before the moves (C11_refcount_ops, C11_substitution_*), and on an abstract count store these operations change each object's count by (new references - old references), erase a dropped object variable exactly once and leave every other count alone (C11_counts, C11_counts_balance, C11_new_variable_holds, C11_counts_untouched, C11_erase_once, C11_no_erase_of_kept, C11_share_ops, C11_erase_once_backends). The refcount arms of substitution.rs are re-extracted from the Rust text on every run and proved to be the model's (T_subst_refcount). Tied to the code by exact equality of the emitted instruction sequences on an exhaustive enumeration of small move graphs at every offset across the register/spill boundary for all three real backends and the mock backend, plus random larger graphs and exhaustive small substitutions; an independent simulator checks the implementation's own sequences.",
         note="Trusted: Lean kernel; hand-written model of parallel_moves.rs/substitution.rs + three backends' mov/save/restore (tied by text equality); converter from printed assembly to model notation. The heap effect of erase/share is C09's.",
         technique="Lean 4 proof of the parallel-move algorithm + exhaustive differential comparison of emitted move sequences",
     ),
